@@ -3,6 +3,9 @@ package rules
 import (
 	"fmt"
 	"go/constant"
+	"go/types"
+	"sort"
+	"strconv"
 	"strings"
 
 	"golang.org/x/tools/go/ssa"
@@ -13,7 +16,7 @@ import (
 func init() { Registry["C16"] = checkC16 }
 
 func checkC16(p *core.Prog, r *core.Report) {
-	r.Explanation = "Decides structural necessary conditions of state-preserving compaction: (R1) the replacement snapshot is published (rewrite.aof.tmp renamed into place) before any compaction input is removed, and during a compaction files are removed only in its commit step; (R2) compactions are serialised by a test-and-set of isRewriting under the Aof mutex, cleared again on every exit (deferred function); (R3) an append file becomes a compaction input only if its index is strictly behind the current append file's (wrap-aware); (R4) the compaction callback drops a record only when its database is gone or LockDB.HasLock says the hold no longer exists - every other record is appended, with its value blob iff it announces one; (R5) the commit step runs only after the load returned no error, and the temporary file is flushed and closed before that; (R6) replay quiescence - the condition the start-up compaction waits for - is decided (flush waiters released, WaitFlushAofChannel returning without waiting) only on paths that read the replay channels' queue counters, because a channel that was handed records but has not woken up yet is not in the active count (a real defect found by this rule's subject was repaired); (R7) every list of log files built from FindAofFiles puts the snapshot before the append files (the list is the read and re-write order). (R8) LockDB.HasLock, the classifier compaction uses, answers \"gone\" for a record that is not a LOCK record only when the key has no manager, nothing is held, or no hold with the record's id exists. (R9) a compaction computes its input list once, before the load; the commit does not recompute it. (R10) the start-up compaction is started only after the replay of the loaded records has been waited for. (R11) the temporary snapshot and its value file are removed before they are opened for writing (a leftover of an interrupted compaction is never extended; a real defect was repaired). NOT decided: equality of the recovered state before/after, appends racing a compaction, every intermediate directory image."
+	r.Explanation = "Decides structural necessary conditions of state-preserving compaction: (R1) the replacement snapshot is published (rewrite.aof.tmp renamed into place) before any compaction input is removed, and during a compaction files are removed only in its commit step; (R2) compactions are serialised by a test-and-set of isRewriting under the Aof mutex, cleared again on every exit (deferred function); (R3) an append file becomes a compaction input only if its index is strictly behind the current append file's (wrap-aware); (R4) the compaction callback drops a record only when its database is gone or LockDB.HasLock says the hold no longer exists - every other record is appended, with its value blob iff it announces one; (R5) the commit step runs only after the load returned no error, and the temporary file is flushed and closed before that; (R6) replay quiescence - the condition the start-up compaction waits for - is decided (flush waiters released, WaitFlushAofChannel returning without waiting) only on paths that read the replay channels' queue counters, because a channel that was handed records but has not woken up yet is not in the active count (a real defect found by this rule's subject was repaired); (R7) every list of log files built from FindAofFiles puts the snapshot before the append files (the list is the read and re-write order). (R8) LockDB.HasLock, the classifier compaction uses, answers \"gone\" for a record that is not a LOCK record only when the key has no manager, nothing is held, or no hold with the record's id exists. (R9) a compaction computes its input list once, before the load; the commit does not recompute it. (R10) the start-up compaction is started only after the replay of the loaded records has been waited for. (R11) the temporary snapshot and its value file are removed before they are opened for writing (a leftover of an interrupted compaction is never extended; a real defect was repaired). (R12) every LockCommand field HasLock reads is assigned by the compaction when it rebuilds the command from a record (a real defect was repaired: TimeoutFlag). NOT decided: equality of the recovered state before/after, appends racing a compaction, every intermediate directory image."
 	r.Assumptions = []string{"Go type checker, go/ssa and VTA call graph are correct for /repo", "os.Rename replaces its target atomically"}
 	c16R1(p, r)
 	c16R2(p, r)
@@ -26,6 +29,7 @@ func checkC16(p *core.Prog, r *core.Report) {
 	c16R9(p, r)
 	c16R10(p, r)
 	c16R11(p, r)
+	c16R12(p, r)
 }
 
 // reachesRemove: does fn (transitively, by static calls in the module) call os.Remove / os.RemoveAll?
@@ -315,6 +319,8 @@ func c16R4(p *core.Prog, r *core.Report) {
 		r.Fail("C16/R4: compaction callback (closure calling HasLock) not found in loadRewriteAofFiles")
 		return
 	}
+	// the mark that announces a value blob (other marks of the record - priority, rewritten - say nothing about it)
+	dataFlag := strconv.FormatInt(mustConst(p, r, "server", "AOF_FLAG_CONTAINS_DATA"), 10)
 	ex := core.NewExplorer(p, core.Hooks{
 		Track: func(x *core.X, a core.Atom) bool {
 			s := core.Plain(a.String())
@@ -343,7 +349,7 @@ func c16R4(p *core.Prog, r *core.Report) {
 				if strings.HasPrefix(h, "HasLock(") && strings.HasSuffix(h, " == false") {
 					notHeld = true
 				}
-				if strings.Contains(h, "AofFlag & ") && strings.HasSuffix(h, " != 0") {
+				if strings.Contains(h, "AofFlag & "+dataFlag+")") && strings.HasSuffix(h, " != 0") {
 					announced = true
 				}
 				if strings.HasPrefix(h, "AppendLock(") && strings.HasSuffix(h, " != nil") {
@@ -925,5 +931,106 @@ func c16R11(p *core.Prog, r *core.Report) {
 	}
 	if n == 0 {
 		r.Fail("C16/R11: no function opens rewrite.aof.tmp for writing")
+	}
+}
+
+// c16R12: the compaction decides whether a record is still needed by asking
+// LockDB.HasLock with a LockCommand it rebuilds from the record, in an object
+// that starts zeroed. Every field of that command which HasLock (or a function
+// it hands the command to) reads must be assigned from the record, as the
+// replay does - a field left zero makes HasLock compare against the wrong
+// request (TimeoutFlag carries RCOUNT_IS_PRIORITY: an update record of a
+// priority hold is then judged different from the live hold and dropped).
+func c16R12(p *core.Prog, r *core.Report) {
+	const rule = "C16/R12"
+	r.Rule(rule, "every LockCommand field read by LockDB.HasLock (directly or in a function it passes the command to) is assigned by loadRewriteAofFiles when it rebuilds the command from a record", 5)
+	has := mustFunc(p, r, "server.(*LockDB).HasLock")
+	load := mustFunc(p, r, "server.(*Aof).loadRewriteAofFiles")
+	if has == nil || load == nil {
+		return
+	}
+	isCmd := func(t types.Type) bool {
+		pt, ok := t.Underlying().(*types.Pointer)
+		return ok && core.TypeKey(pt.Elem()) == "protocol.LockCommand"
+	}
+	reads := map[string]string{} // field -> where
+	var scan func(fn *ssa.Function, param ssa.Value, depth int)
+	scan = func(fn *ssa.Function, param ssa.Value, depth int) {
+		if fn == nil || fn.Blocks == nil || depth > 2 {
+			return
+		}
+		for _, b := range fn.Blocks {
+			for _, ins := range b.Instrs {
+				switch x := ins.(type) {
+				case *ssa.FieldAddr:
+					if x.X != param {
+						continue
+					}
+					// a read (any referrer that is not a store to this address); the
+					// embedded protocol.Command is looked through to its own fields
+					for _, u := range *x.Referrers() {
+						if st, ok := u.(*ssa.Store); ok && st.Addr == ssa.Value(x) {
+							continue
+						}
+						k := core.FieldKeyOf(x.X.Type(), x.Field)
+						if sub, ok := u.(*ssa.FieldAddr); ok && sub.X == ssa.Value(x) {
+							k = core.FieldKeyOf(sub.X.Type(), sub.Field)
+						}
+						if _, ok := reads[k.Field]; !ok {
+							reads[k.Field] = core.FuncName(fn)
+						}
+					}
+				case ssa.CallInstruction:
+					c := x.Common().StaticCallee()
+					if c == nil || !core.InModule(c) {
+						continue
+					}
+					for i, a := range x.Common().Args {
+						if a == param && i < len(c.Params) {
+							scan(c, c.Params[i], depth+1)
+						}
+					}
+				}
+			}
+		}
+	}
+	for _, q := range has.Params {
+		if isCmd(q.Type()) {
+			scan(has, q, 0)
+		}
+	}
+	assigned := map[string]bool{}
+	var collect func(fn *ssa.Function)
+	collect = func(fn *ssa.Function) {
+		for _, b := range fn.Blocks {
+			for _, ins := range b.Instrs {
+				if st, ok := ins.(*ssa.Store); ok {
+					if k, ok := storeKey(st.Addr); ok && (k.Type == "protocol.LockCommand" || k.Type == "protocol.Command") {
+						assigned[k.Field] = true
+					}
+				}
+			}
+		}
+		for _, af := range fn.AnonFuncs {
+			collect(af)
+		}
+	}
+	collect(load)
+	if len(reads) == 0 || len(assigned) == 0 {
+		r.Fail("C16/R12: no field reads in HasLock (%d) or no assignments in loadRewriteAofFiles (%d)", len(reads), len(assigned))
+		return
+	}
+	var fields []string
+	for f := range reads {
+		fields = append(fields, f)
+	}
+	sort.Strings(fields)
+	for _, f := range fields {
+		key := "server.(*Aof).loadRewriteAofFiles: LockCommand." + f + " assigned before HasLock"
+		if assigned[f] {
+			r.Hold(rule, key, p.Pos(load.Pos()), "assigned from the record (read in "+reads[f]+")")
+		} else {
+			r.Violate(rule, key, p.Pos(load.Pos()), "HasLock reads command."+f+" (in "+reads[f]+") but the compaction never assigns it - it is always zero there, while the replay derives it from the record: a record of a hold taken with the priority flag is compared as if the flag were clear, judged different from the live hold and dropped from the snapshot (the recovered deadline differs before and after the compaction)", nil)
+		}
 	}
 }
